@@ -16,7 +16,7 @@ def run(c):
     if c.replay:
         harness(c, 1, replay_ops=c.replay.get("replay_ops") or [])
     else:
-        harness(c, 60000 if c.thorough else 4000)
+        harness(c, 150000 if c.thorough else 4000)
 
     def search():
         c.seed += 1000
